@@ -47,6 +47,12 @@ INSTANCES = {
               menu=[dict(tasks=[(1, [], 0, 0), (2, [], 0, 0)], climit=1, max_fails=-1),
                     dict(tasks=[(1, [], 1, 1)], climit=1, max_fails=-1)],
               losses=1, cancels=1, fails=1, launch_fails=0, pf_reserve=0, pf_max=1, modes=["eager"], tier="thorough"),
+    # restart from the journal at every crash point (journal kept as history variable, so the instance is tiny):
+    # dependency + job failure limit 0 + crash limit 2, two losses, a failure, a cancel
+    "J": dict(workers=[1, 1], classes=[1], journaling=True,
+              menu=[dict(tasks=[(1, [], 0, 0), (2, [1], 0, 0)], climit=2, max_fails=0),
+                    dict(tasks=[(1, [], 0, 0)], climit=2, max_fails=-1)],
+              losses=2, cancels=1, fails=1, launch_fails=0, pf_reserve=0, pf_max=0, modes=["eager"], tier="thorough"),
     # simulation only (no exhaustive run): three workers, two classes, three jobs, every kind of fault
     "S1": dict(workers=[2, 1, 1], classes=[1, 2],
                menu=[dict(tasks=[(1, [], 0, 0), (2, [], 1, 0), (3, [1], 0, 0), (4, [1, 2], 0, 1), (5, [], 0, 0)], climit=2, max_fails=-1),
@@ -71,9 +77,10 @@ INVARIANTS = [
     "C07_CrashBounds", "C07_FailOnlyAtLimit", "C07_LimitReachedFails",
     "C08_NoReportAfterAck", "C08_Released", "C08_StopSent", "C08_NoDangling",
     "C13_CountersMatch", "C13_CompletedOnce",
-    "C14_AbortAllOnExceed", "C14_ExceededStopped",
+    "C14_AbortAllOnExceed", "C14_ExceededStopped", "C14_NoAbortWithin",
     "C05_MnExclusive", "C05_MnWorkersIdle",
 ]
+JOURNAL_INV = ["J_RestoreSucceeds", "J_OutcomesRestored", "J_InstFresh", "J_CrashKept", "J_DepsConsistent"]
 EAGER_ONLY = ["C01_OutcomeAtRest", "C02_QuiescentOk"]
 STEP_PROPS = ["C03_NoEarlyStartStep", "C08_NoStartAfterCancelSeenStep", "C06_NoStartAfterGiveBackStep", "C06_StartedIsRealStep"]
 
@@ -95,12 +102,13 @@ def instance_tla(name, inst):
 
 
 def cfg_text(name, inst, mode, spec="Spec", extra_inv=()):
-    inv = INVARIANTS + (EAGER_ONLY if mode == "eager" else []) + list(extra_inv)
+    inv = INVARIANTS + (EAGER_ONLY if mode == "eager" else []) + (JOURNAL_INV if inst.get("journaling") else []) + list(extra_inv)
     lines = [f"SPECIFICATION {spec}", "CONSTANTS",
              f"  WorkerCpus <- {name}_Workers", f"  WorkerGroup <- {name}_Groups", f"  Menu <- {name}_Menu", f"  Classes <- {name}_Classes",
              f"  MaxLosses = {inst['losses']}", f"  MaxCancels = {inst['cancels']}", f"  MaxFails = {inst['fails']}",
              f"  MaxLaunchFails = {inst['launch_fails']}", f"  PfReserve = {inst['pf_reserve']}", f"  PfMax = {inst['pf_max']}",
-             f"  Eager = {'TRUE' if mode == 'eager' else 'FALSE'}", "CHECK_DEADLOCK FALSE"]
+             f"  Eager = {'TRUE' if mode == 'eager' else 'FALSE'}", f"  Journaling = {'TRUE' if inst.get('journaling') else 'FALSE'}",
+             "CHECK_DEADLOCK FALSE"]
     if inv:
         lines += ["INVARIANTS"] + ["  " + i for i in inv]
     if spec == "Spec":
